@@ -27,25 +27,56 @@ def main():
     for rid in sorted(revs):
         r = revs[rid]
         isasync = any(m["asy"] for m in r["methods"])
-        tm = []
+        tm, lis = [], ""
         for m in r["methods"]:
             argdecl = ", ".join("a%d: %s" % (k, g.ty(t)) for k, t in enumerate(m["args"]))
+            if m.get("nest"):
+                # an object of a nested exported interface (same name `Lis` in every revision) whose method uses the nest types
+                lis = "#[savefile_abi_exportable(version = %d)]\n    pub trait Lis {\n        fn on(&self, %s) -> u8;\n    }\n    " % (
+                    r["latest"], ", ".join("p%d: %s" % (k, g.ty(t)) for k, t in enumerate(m["nest"])))
+                argdecl = "l: Box<dyn Lis>" + (", " + argdecl if argdecl else "")
             tm.append("        %sfn %s(&self, %s) -> %s;" % ("async " if m["asy"] else "", m["name"], argdecl, g.ty(m["ret"])))
         mods.append("""pub mod led_%s {
     use super::*;
-    %s#[savefile_abi_exportable(version = %d)]
+    %s%s#[savefile_abi_exportable(version = %d)]
     pub trait Led {
 %s
     }
 }
-""" % (rid, "#[async_trait::async_trait]\n    " if isasync else "", r["latest"], "\n".join(tm)))
+""" % (rid, lis, "#[async_trait::async_trait]\n    " if isasync else "", r["latest"], "\n".join(tm)))
         led_arms.append('        "%s" => savefile_abi::verify_compatiblity::<dyn led_%s::Led>(path),' % (rid, rid))
     for f in sorted(fams):
         versions = fams[f]["versions"]
         for v, sigs in enumerate(versions):
             mod = "f%d_v%d" % (f, v)
             tm, im, cm, pm = [], [], [], []
+            nested = []
             for s in sigs:
+                kind = s.get("kind", "plain")
+                if kind != "plain":
+                    # the payload type travels inside a nested exported interface (kind sink) or a closure (kind fn)
+                    ty = g.ty(s["args"][0])
+                    nm = s["name"]
+                    if kind == "sink":
+                        nested.append("    #[savefile_abi_exportable(version = %d)]\n    pub trait Sink_%s {\n        fn put(&mut self, r: %s) -> %s;\n    }" % (v, nm, ty, ty))
+                        tm.append("        fn %s(&self, s: &mut dyn Sink_%s, a0: %s) -> %s;" % (nm, nm, ty, ty))
+                        im.append("        fn %s(&self, s: &mut dyn Sink_%s, a0: %s) -> %s { vcommon::abi::log(\"%s\", vec![vcommon::Model::to_model(&a0)]); s.put(a0) }" % (nm, nm, ty, ty, nm))
+                        cm.append('''                "%s" => {
+                    struct S;
+                    impl Sink_%s for S {
+                        fn put(&mut self, r: %s) -> %s { vcommon::abi::log("cb:%s", vec![vcommon::Model::to_model(&r)]); r }
+                    }
+                    let mut s = S;
+                    vcommon::Model::to_model(&self.0.%s(&mut s, <%s as vcommon::Model>::from_model(&a[0])))
+                }''' % (nm, nm, ty, ty, nm, nm, ty))
+                    else:
+                        tm.append("        fn %s(&self, f: &dyn Fn(%s) -> %s, a0: %s) -> %s;" % (nm, ty, ty, ty, ty))
+                        im.append("        fn %s(&self, f: &dyn Fn(%s) -> %s, a0: %s) -> %s { vcommon::abi::log(\"%s\", vec![vcommon::Model::to_model(&a0)]); f(a0) }" % (nm, ty, ty, ty, ty, nm))
+                        cm.append('''                "%s" => {
+                    let f = |r: %s| -> %s { vcommon::abi::log("cb:%s", vec![vcommon::Model::to_model(&r)]); r };
+                    vcommon::Model::to_model(&self.0.%s(&f, <%s as vcommon::Model>::from_model(&a[0])))
+                }''' % (nm, ty, ty, nm, nm, ty))
+                    continue
                 refs = set(s["refs"])
                 argdecl, argto, argfrom = [], [], []
                 for k, t in enumerate(s["args"]):
@@ -62,6 +93,7 @@ def main():
                 cm.append('                "%s" => vcommon::Model::to_model(&self.0.%s(%s)),' % (s["name"], s["name"], ", ".join(argfrom)))
             mods.append("""pub mod %s {
     use super::*;
+%s
     #[savefile_abi_exportable(version = %d)]
     pub trait Iface {
 %s
@@ -81,7 +113,7 @@ def main():
         fn passable(&self, m: &str, k: usize) -> bool { self.0.get_arg_passable_by_ref(m, k) }
     }
 }
-""" % (mod, v, "\n".join(tm), "\n".join(im), "\n".join(cm)))
+""" % (mod, "\n".join(nested), v, "\n".join(tm), "\n".join(im), "\n".join(cm)))
         n = len(versions)
         for i in range(n):
             for j in range(n):
